@@ -29,4 +29,18 @@ def replay_case(job):
     return {"violated": False}
 
 
+def search_segments(job):
+    """multi-message segments, merge segments and empty-chunk cuts through the real reader"""
+    sys.path.insert(0, os.path.dirname(os.path.dirname(os.path.abspath(__file__))))
+    from bounded import c05_iwa
+    cases = [{"kind": "synthetic", "size": 5000, "seed": 1, "segments": 3, "messages": 4}, {"kind": "synthetic", "size": 300, "seed": 2, "segments": 10}]
+    cases += [{"kind": "merge", "base": i % 2, "seed": 100 + i} for i in range(8)]
+    cases += [{"kind": "synthetic", "size": 700, "seed": 6, "segments": 6, "cuts": c} for c in ("empty-lead", "empty-trail", "empty-mid", "empty-seg", "many")]
+    for case in cases:
+        r = c05_iwa.run_case(case)
+        if r and not r.get("ok"):
+            return {"violated": True, "detail": r["detail"], "job": {"custom": "replay_case", "case": case}}
+    return {"violated": False}
+
+
 NATIVE = {}
